@@ -289,6 +289,81 @@ def _wrap_text(cls, name, klass, out_path):
     setattr(cls, name, wrapper)
 
 
+def _wrap_save(out_path):
+    """Document.save of the repository's tests as two-event PackageTrace traces: what the document answers before
+    the call is the belief; the file / folder / buffer written is read back with zipfile / os.walk / lxml only."""
+    import io
+    import sys
+    from pathlib import Path
+
+    sys.path.insert(0, os.path.dirname(os.path.dirname(os.path.abspath(__file__))))
+    from harness import pkg_driver as pd
+    from odfdo.document import Document
+
+    orig = Document.save
+
+    def wrapper(self, target=None, packaging="zip", pretty=None, backup=False, **kw):
+        if getattr(_state, "sdepth", 0) > 0 or kw:
+            return orig(self, target, packaging, pretty, backup, **kw)
+        _state.sdepth = 1
+        ev = None
+        try:
+            try:
+                ids = pd.Ids()
+                names = [n for n in self.get_parts() if not n.endswith("/") and n != pd.MANIFEST]
+                mem = pd.doc_view(self, names, ids)
+                mf = [str(x) for x in self.manifest.get_paths()]
+                ev = {"ids": ids, "names": names, "open": {"op": "open", "src": _current_test["id"], "how": "template", "mem": mem, "mf": mf}}
+            except Exception:  # noqa: BLE001
+                ev = None
+            try:
+                return orig(self, target, packaging, pretty, backup)
+            except Exception:
+                ev = None
+                raise
+        finally:
+            _state.sdepth = 0
+            if ev is not None:
+                try:
+                    ids = ev["ids"]
+                    pk = (packaging or "zip").strip().lower()
+                    eff_pretty = bool(pretty) if pretty is not None else pk in ("folder", "xml")
+                    sv = {"op": "save", "target": "t1", "packaging": pk, "pretty": eff_pretty}
+                    tgt = target if target is not None else self.container.path
+                    parts = None
+                    if pk == "zip" and tgt is not None:
+                        if isinstance(tgt, io.BytesIO):
+                            pos = tgt.tell()
+                            parts, zinfo = pd.read_zip(tgt)
+                            tgt.seek(pos)
+                        else:
+                            parts, zinfo = pd.read_zip(str(tgt))
+                        zinfo["mimetype_ok"] = parts.get("mimetype", b"").decode() == self.mimetype
+                        sv["zip"] = zinfo
+                    elif pk == "folder" and tgt is not None and not isinstance(tgt, io.BytesIO):
+                        t = str(tgt).rstrip(os.sep)
+                        while t.endswith(".folder"):
+                            t = t[: -len(".folder")]
+                        parts = pd.read_folder(Path(t + ".folder"))
+                    elif pk == "xml" and tgt is not None and not isinstance(tgt, io.BytesIO):
+                        sv["flat_ok"] = pd.flat_ok(Path(str(tgt)), self)
+                        sv.update(saved={}, smf=[], smf_files=[], root_media_ok=True)
+                    else:
+                        sv = None
+                    if sv is not None:
+                        if parts is not None:
+                            saved, smf, smf_files, root_ok = pd.project_package(parts, ids)
+                            sv.update(saved=saved, smf=smf, smf_files=smf_files, root_media_ok=root_ok)
+                        sv["after"] = pd.doc_view(self, ev["names"], ids)
+                        with open(out_path, "a") as f:
+                            f.write(json.dumps({"kind": "pkg", "test": _current_test["id"], "trace": [ev["open"], sv]}) + "\n")
+                except Exception:  # noqa: BLE001, S110
+                    pass
+
+    wrapper.__doc__ = orig.__doc__
+    Document.save = wrapper
+
+
 def pytest_configure(config):
     if os.environ.get("ODFDO_VERIF") != "1":
         return
@@ -300,6 +375,8 @@ def pytest_configure(config):
     for name in MUTATORS:
         if hasattr(Table, name):
             _wrap(Table, name, out_path)
+    if os.environ.get("ODFDO_VERIF_PKG") == "1":
+        _wrap_save(out_path)
     if os.environ.get("ODFDO_VERIF_TEXT") == "1":
         from odfdo.paragraph import Paragraph
 
